@@ -330,6 +330,73 @@ theorem gen_model_list_outputs {A B : Type} (models : List (A → B)) (args : Li
   rw [e]
   exact ⟨(model_list_outputs models args h).1, rfl, (model_list_outputs models args h).2⟩
 
+/-! ### wave 3: objective normalisers, `'fill'` masks, `IndependentModelList` properties over histories (all GENERATED)
+
+* the integer by which `LeaveOneOutPseudoLikelihood` / `ExactMarginalLogLikelihood` divide the per-batch-element value is
+  the replica's (`n`), for EVERY batch shape — `m.numel()` (batch size × n) would not be;
+* the missing / observed mask of every `'fill'` branch is a function of the entry `labels[b, i]` alone
+  (`_get_observed`, the `'mask'` helper, reduces over all batch elements);
+* `IndependentModelList.train_inputs` / `train_targets` are evaluated at every read and collect the members' attributes,
+  so after ANY history of reads and `set_train_data` updates they are the members' current values, and the values handed
+  to `SumMarginalLogLikelihood` are the members' current objectives. -/
+
+section Wave3
+variable {V : Type}
+
+theorem gen_loo_normaliser_per_element (n : Nat) (bs : RShape) :
+    looNormaliser.eval (n :: bs) [n] = n ∧ looNormaliser.eval [n] [n] = n := by
+  simp [looNormaliser, NormE.eval]
+
+theorem gen_exact_normaliser_per_element (n : Nat) (bs : RShape) :
+    exactNormaliser.eval (n :: bs) [n] = n ∧ exactNormaliser.eval [n] [n] = n := by
+  simp [exactNormaliser, NormE.eval, numel]
+
+theorem gen_loo_objective_elementwise [Div α] [Sub α] [NatCast α] (shift : α) (res : T α) (n : Nat) (bs : RShape) (b : RIdx) :
+    (runNormalise looNormaliser shift res (n :: bs) [n]).get b = replicaNormalise looNormaliser shift (res.get b) n := by
+  simp only [runNormalise, replicaNormalise, (gen_loo_normaliser_per_element n bs).1, (gen_loo_normaliser_per_element n bs).2]
+
+theorem gen_exact_objective_elementwise [Div α] [Sub α] [NatCast α] (shift : α) (res : T α) (n : Nat) (bs : RShape) (b : RIdx) :
+    (runNormalise exactNormaliser shift res (n :: bs) [n]).get b = replicaNormalise exactNormaliser shift (res.get b) n := by
+  simp only [runNormalise, replicaNormalise, (gen_exact_normaliser_per_element n bs).1, (gen_exact_normaliser_per_element n bs).2]
+
+theorem gen_fill_masks_per_element (labels : T Bool) (idx : RIdx) :
+    meanCacheFillMask.observedAt labels idx = !labels.get idx ∧ covarFillMask.observedAt labels idx = !labels.get idx ∧
+    elpFillMask.observedAt labels idx = !labels.get idx ∧ logMarginalFillMask.observedAt labels idx = !labels.get idx := by
+  simp [meanCacheFillMask, covarFillMask, elpFillMask, logMarginalFillMask, MaskE.observedAt]
+
+theorem runHist_perRead_members (pI pT : ListProp) (hI : pI.kind = .perRead) (hT : pT.kind = .perRead) :
+    ∀ (h : List (MLEvent V)) (st : MLState V), (runHist pI pT st h).1.members = membersAfter st.members h := by
+  intro h
+  induction h with
+  | nil => intro st; rfl
+  | cons e h ih =>
+    intro st
+    cases e with
+    | read a =>
+      cases a <;> simp [runHist, membersAfter, ListProp.read, hI, hT, ih]
+    | setData i x y => simp [runHist, membersAfter, ih]
+
+theorem gen_model_list_props_current (st : MLState V) (h : List (MLEvent V)) (a : MemberAttr) :
+    readAfter modelListTrainInputs modelListTrainTargets st h a = (membersAfter st.members h).map a.proj := by
+  have hm := runHist_perRead_members (V := V) modelListTrainInputs modelListTrainTargets rfl rfl h st
+  cases a <;> simp [readAfter, ListProp.read, modelListTrainInputs, modelListTrainTargets, ← hm]
+
+theorem zip_map_fst_snd (l : List (V × V)) : List.zip (l.map (·.1)) (l.map (·.2)) = l := by
+  induction l with
+  | nil => rfl
+  | cons x xs ih => simp [ih]
+
+theorem gen_sum_mll_tracks_members {Y : Type} (mll : List (V → V → Y)) (st : MLState V) (h : List (MLEvent V)) :
+    List.zipWith (fun (m : V → V → Y) (xy : V × V) => m xy.1 xy.2) mll
+        (List.zip (readAfter modelListTrainInputs modelListTrainTargets st h .trainInputs)
+                  (readAfter modelListTrainInputs modelListTrainTargets st h .trainTargets)) =
+      List.zipWith (fun (m : V → V → Y) (xy : V × V) => m xy.1 xy.2) mll (membersAfter st.members h) := by
+  rw [gen_model_list_props_current, gen_model_list_props_current]
+  show List.zipWith _ mll (List.zip ((membersAfter st.members h).map (·.1)) ((membersAfter st.members h).map (·.2))) = _
+  rw [zip_map_fst_snd]
+
+end Wave3
+
 end Generated
 
 /-! ### non-vacuity -/
@@ -337,5 +404,15 @@ end Generated
 example : bcastR [1, 2] [3, 1] = some [3, 2] := by decide
 example : InRange [2, 1] [3, 2] := by decide
 example : bidxR [1, 2] [2, 1] = [0, 1] := by decide
+section
+open Choreo Gen.BatchChoreo
+example : readAfter modelListTrainInputs modelListTrainTargets (⟨[(0, 0), (10, 10)], none, none⟩ : MLState Nat)
+    [.read .trainTargets, .setData 0 none (some 1), .read .trainInputs] .trainTargets = [1, 10] := by decide
+-- a memoised attribute does NOT have the property (so the theorem is about the decorator the source uses):
+example : readAfter ⟨.once, .trainInputs⟩ ⟨.once, .trainTargets⟩ (⟨[(0, 0), (10, 10)], none, none⟩ : MLState Nat)
+    [.read .trainTargets, .setData 0 none (some 1)] .trainTargets = [0, 10] := by decide
+example : MaskE.getObserved.observedAt ⟨[2, 2], fun idx => idx == [0, 1]⟩ [0, 0] = false := by decide
+example : (NormE.targetNumel).eval [5, 3] [5] = 15 := by decide
+end
 
 end C08
